@@ -81,28 +81,28 @@ Proof. exact synced_commits_survive_l. Qed.
 Print Assumptions synced_commits_survive.
 
 (** a database whose log is one file (no rotation), after any clean history: whatever the next
-    session does — logged or unlogged calls, checkpoints, syncs — every crash image that keeps
-    at least the bytes the last close left opens, and yields exactly the store of the last
-    close (a prefix of the issued operations: the empty prefix of the session) *)
-Theorem crash_recovers_last_close : forall crc enc dec, crc_u32 crc -> forall cfg ss st os n f,
+    session does — logged or unlogged calls, checkpoints, syncs — EVERY crash image of the
+    directory (each file keeps a prefix that contains its fsynced bytes; a file of which nothing
+    was ever fsynced may vanish) opens, and yields exactly the store of the last close: a prefix
+    of the issued operations (the empty prefix of the session) that contains everything the
+    last successful close wrote *)
+Theorem crash_recovers_last_close : forall crc enc dec, crc_u32 crc -> forall cfg ss st os d',
   no_crash ss = true -> forallb kclean (hist_flags crc enc dec cfg db_fresh ss) = true ->
   snd (run_sessions crc enc dec cfg db_fresh ss) = ROk st ->
   Forall (rec_ok enc dec) (hist_logs crc enc dec cfg db_fresh ss ++ ops_logs crc enc cfg st os) ->
   w_seq (db_w (fst (run_ops crc enc cfg st os))) = w_seq (db_w st) ->
-  d_files (w_disk (db_w st)) = [(0, f)] -> (length (f_bytes f) <= n)%nat ->
-  exists st2, db_open crc dec (cut_disk [(0, Z.of_nat n)] (wdrop (db_w (fst (run_ops crc enc cfg st os))))) = ROk st2
-              /\ db_store st2 = db_store st.
+  crash (wdrop (db_w (fst (run_ops crc enc cfg st os)))) d' ->
+  exists st2, db_open crc dec d' = ROk st2 /\ db_store st2 = db_store st.
 Proof. exact crash_recovers_last_close_l. Qed.
 Print Assumptions crash_recovers_last_close.
 
-Theorem crash_recovers_last_close_real : forall cfg ss st os n f,
+Theorem crash_recovers_last_close_real : forall cfg ss st os d',
   no_crash ss = true -> forallb kclean (real_flags cfg ss) = true ->
   snd (real_sessions cfg ss) = ROk st ->
   Forall rec_fits (real_logs cfg ss ++ ops_logs crc32 enc_record cfg st os) ->
   w_seq (db_w (fst (real_ops cfg st os))) = w_seq (db_w st) ->
-  d_files (w_disk (db_w st)) = [(0, f)] -> (length (f_bytes f) <= n)%nat ->
-  exists st2, real_open (cut_disk [(0, Z.of_nat n)] (wdrop (db_w (fst (real_ops cfg st os))))) = ROk st2
-              /\ db_store st2 = db_store st.
+  crash (wdrop (db_w (fst (real_ops cfg st os)))) d' ->
+  exists st2, real_open d' = ROk st2 /\ db_store st2 = db_store st.
 Proof. exact crash_recovers_last_close_real_l. Qed.
 Print Assumptions crash_recovers_last_close_real.
 
@@ -155,3 +155,12 @@ Print Assumptions non_final_damage_not_prefix_refuted.
 Example frames_exist : crc_u32 (fun _ => 7) /\ decodes_all dec_record_slice [enc_record (TxCommit 2)] [TxCommit 2]
                        /\ all_short [enc_record (TxCommit 2)].
 Proof. split; [intros p; unfold two32; lia|]. split; repeat constructor. Qed.
+
+(** non-vacuity of the crash premise: the torn image of witness K2's middle session is a crash
+    image of the directory the session left *)
+Example crash_image_exists :
+  let st1 := fst (real_ops (engine_cfg MNoSync) db_fresh [OCreateNode [sA]; OCreateNode [sB]]) in
+  crash (wdrop (db_w st1)) (cut_disk [(0, 20)] (wdrop (db_w st1))).
+Proof.
+  cbv zeta. change 20 with (Z.of_nat 20). eapply crash_cut_single; [vm_compute; reflexivity|vm_compute; discriminate].
+Qed.
